@@ -25,6 +25,7 @@
 #ifndef PHQ_CONSTITUTIVE_MODEL_ELASTIC_ISOTROPIC_SOLID_HPP
 #define PHQ_CONSTITUTIVE_MODEL_ELASTIC_ISOTROPIC_SOLID_HPP
 
+#include <algorithm>
 #include <cmath>
 #include <cstddef>
 #include <functional>
@@ -118,12 +119,25 @@ public:
                                   const LameFirstModulus<NumericType>& lame_first_modulus)
     : ConstitutiveModel(),
       shear_modulus(
-          static_cast<NumericType>(0.25)
-          * (young_modulus.Value() - static_cast<NumericType>(3) * lame_first_modulus.Value()
-             + ::std::sqrt(::std::pow(young_modulus.Value(), 2)
-                           + static_cast<NumericType>(9) * ::std::pow(lame_first_modulus.Value(), 2)
-                           + static_cast<NumericType>(2) * young_modulus.Value()
-                                 * lame_first_modulus.Value()))),
+          // The textbook form (E - 3λ + R)/4 cancels catastrophically when 3λ > E (Poisson's ratio
+          // approaching 0.5); there, the algebraically equivalent form 2Eλ/(R + 3λ - E) is used.
+          young_modulus.Value() >= static_cast<NumericType>(3) * lame_first_modulus.Value() ?
+              static_cast<NumericType>(0.25)
+                  * (young_modulus.Value()
+                     - static_cast<NumericType>(3) * lame_first_modulus.Value()
+                     + ::std::sqrt(
+                         ::std::pow(young_modulus.Value(), 2)
+                         + static_cast<NumericType>(9) * ::std::pow(lame_first_modulus.Value(), 2)
+                         + static_cast<NumericType>(2) * young_modulus.Value()
+                               * lame_first_modulus.Value())) :
+              static_cast<NumericType>(2) * young_modulus.Value() * lame_first_modulus.Value()
+                  / (::std::sqrt(
+                         ::std::pow(young_modulus.Value(), 2)
+                         + static_cast<NumericType>(9) * ::std::pow(lame_first_modulus.Value(), 2)
+                         + static_cast<NumericType>(2) * young_modulus.Value()
+                               * lame_first_modulus.Value())
+                     + static_cast<NumericType>(3) * lame_first_modulus.Value()
+                     - young_modulus.Value())),
       lame_first_modulus(lame_first_modulus) {}
 
   /// \brief Constructor. Constructs an elastic isotropic solid constitutive model from a given
@@ -131,20 +145,26 @@ public:
   constexpr ElasticIsotropicSolid(const YoungModulus<NumericType>& young_modulus,
                                   const PWaveModulus<NumericType>& p_wave_modulus)
     : ConstitutiveModel(),
+      // The discriminant E^2 + 9M^2 - 10EM is evaluated in its factored form (M - E)(9M - E), which
+      // does not round to a negative number when M = E (Poisson's ratio of zero), and the shear
+      // modulus (3M + E - S)/8 in its equivalent form 2EM/(3M + E + S), which does not cancel when
+      // M >> E (Poisson's ratio approaching 0.5).
       shear_modulus(
-          static_cast<NumericType>(0.125)
-          * (static_cast<NumericType>(3) * p_wave_modulus.Value() + young_modulus.Value()
-             - ::std::sqrt(
-                 ::std::pow(young_modulus.Value(), 2)
-                 + static_cast<NumericType>(9) * ::std::pow(p_wave_modulus.Value(), 2)
-                 - static_cast<NumericType>(10) * young_modulus.Value() * p_wave_modulus.Value()))),
+          static_cast<NumericType>(2) * young_modulus.Value() * p_wave_modulus.Value()
+          / (static_cast<NumericType>(3) * p_wave_modulus.Value() + young_modulus.Value()
+             + ::std::sqrt(::std::max(
+                 static_cast<NumericType>(0),
+                 (p_wave_modulus.Value() - young_modulus.Value())
+                     * (static_cast<NumericType>(9) * p_wave_modulus.Value()
+                        - young_modulus.Value()))))),
       lame_first_modulus(
           static_cast<NumericType>(0.25)
           * (p_wave_modulus.Value() - young_modulus.Value()
-             + ::std::sqrt(::std::pow(young_modulus.Value(), 2)
-                           + static_cast<NumericType>(9) * ::std::pow(p_wave_modulus.Value(), 2)
-                           - static_cast<NumericType>(10) * young_modulus.Value()
-                                 * p_wave_modulus.Value()))) {}
+             + ::std::sqrt(::std::max(
+                 static_cast<NumericType>(0),
+                 (p_wave_modulus.Value() - young_modulus.Value())
+                     * (static_cast<NumericType>(9) * p_wave_modulus.Value()
+                        - young_modulus.Value()))))) {}
 
   /// \brief Constructor. Constructs an elastic isotropic solid constitutive model from a given
   /// shear modulus and Poisson's ratio.
